@@ -1,10 +1,12 @@
 package vm
 
 import (
+	"encoding/binary"
 	"fmt"
 	"math/big"
 
 	"github.com/Oneledger/protocol/data/balance"
+	"github.com/Oneledger/protocol/data/evm"
 	"github.com/Oneledger/protocol/data/keys"
 	ethcmn "github.com/ethereum/go-ethereum/common"
 )
@@ -21,6 +23,14 @@ func (s *CommitStateDB) createObject(addr ethcmn.Address) (newObj, prevObj *stat
 	}
 	newObj = newStateObject(s, acc)
 	newObj.setNonce(0) // sets the object to dirty
+	if prevObj != nil {
+		// re-creation of a live account: the new account starts with empty storage
+		newObj.generation = prevObj.generation + 1
+		newObj.dirtyGeneration = true
+	} else {
+		// deleteStateObject left the next generation behind, if the address was used before
+		newObj.generation = s.loadGeneration(addr)
+	}
 
 	if prevObj == nil {
 		s.journal.append(createObjectChange{account: &addr})
@@ -58,6 +68,7 @@ func (s *CommitStateDB) getStateObject(addr ethcmn.Address) (stateObject *stateO
 
 	// insert the state object into the live set
 	so := newStateObject(s, acc)
+	so.generation = s.loadGeneration(addr)
 	s.setStateObject(so)
 
 	return so
@@ -107,4 +118,20 @@ func (s *CommitStateDB) deleteStateObject(so *stateObject) {
 	// transaction are destroyed, as in go-ethereum (RemoveAccount writes this balance through)
 	so.account.SetBalance(new(big.Int))
 	s.accountKeeper.RemoveAccount(*so.account)
+	// whatever is created at this address later starts with empty storage
+	s.storeGeneration(so.address, so.generation+1)
+}
+
+func (s *CommitStateDB) loadGeneration(addr ethcmn.Address) uint64 {
+	raw, _ := s.contractStore.Get(evm.KeyPrefixGeneration, addr.Bytes())
+	if len(raw) != 8 {
+		return 0
+	}
+	return binary.BigEndian.Uint64(raw)
+}
+
+func (s *CommitStateDB) storeGeneration(addr ethcmn.Address, generation uint64) {
+	var raw [8]byte
+	binary.BigEndian.PutUint64(raw[:], generation)
+	s.contractStore.Set(evm.KeyPrefixGeneration, addr.Bytes(), raw[:])
 }
